@@ -5,6 +5,7 @@ import os
 import shutil
 
 import ext.pem
+from ext import flowmore
 import flowgrid
 import flowstep
 import gen
@@ -31,7 +32,13 @@ FINISH = dict(
          "two-fault scripts. Files are snapshotted before the attempt and when the post-operation hook runs; "
          "Spec.C03.holds judges (initial, final, failed?); Model/Flow.attempt is run in lock-step on the answers "
          "served (retries cut by Model/Http) and must reproduce the observed exchange / hook / write trace. "
-         "non-trivial = the fault fired.",
+         "non-trivial = the fault fired. py/ext/flowmore.py adds, in both tiers: every position x {malformed, dropped "
+         "connection, invalid status} x the (pair, kp_reuse) classes; scripts with TWO faults in one attempt (a "
+         "survivable fault at finalize / order poll followed by a download that cannot be installed, plus random "
+         "pairs); two or three attempts of ONE process (fault in the first, or the first two), each attempt's end "
+         "judged against the snapshot of the previous post-operation hook; initial files = key only, a matching "
+         "pair of another key type than configured (RSA, Ed25519), an expired pair, a pair lacking a configured "
+         "name; the newNonce request (CA without nonces on GET) and second / third polls of authorizations and order.",
 )
 
 
@@ -93,6 +100,28 @@ def judge(ctx, helper, results):
     ctx.traces += len(keep)
 
 
+def more_families(ctx, helper, root, first_idx, g):
+    """py/ext/flowmore.py: a stratified sample (every position x error / drop / invalid status x the four
+    classes), scripts with two faults, several attempts of one process, other initial files, more positions."""
+    q = ctx.quick()
+    scs = flowmore.sequences(q) + flowmore.stratified(q) + flowmore.two_fault(ctx.rng, g, 20 if q else 600) + \
+        flowmore.initial_states(q) + flowmore.positions(q)
+    scs = [dict(s, idx=first_idx + 100000 + i) for i, s in enumerate(scs)]
+    with concurrent.futures.ThreadPoolExecutor(max_workers=14) as ex:
+        results = list(ex.map(lambda s: flowmore.run(s, root, helper), scs))
+    for obs in results:
+        sc = obs["sc"]
+        ctx.count("family:" + sc.get("family", "stratified"))
+        if sc.get("second"):
+            ctx.count("two-fault:fired=%d" % len(set(flowgrid.faults_fired(obs))))
+        if sc.get("initial_kind"):
+            ctx.count("initial:%s" % sc["initial_kind"])
+        if sc.get("pos_label"):
+            ctx.count("pos+:%s fired=%s" % (sc["pos_label"], flowgrid.fault_hit(obs)))
+    judge(ctx, helper, results)
+    flowmore.judge_attempts(ctx, helper, results)
+
+
 def flowgrid_hook_success(obs):
     import flow
     return flow.hook_args(obs["posts"][0]).get("is_success") == "true"
@@ -122,6 +151,7 @@ def run(ctx):
         with concurrent.futures.ThreadPoolExecutor(max_workers=12) as ex:
             results = list(ex.map(lambda s: flowgrid.run_fault(s, root, helper), scs))
         judge(ctx, helper, results)
+        more_families(ctx, helper, root, len(scs), flowgrid.grid())
         if not ctx.quick():
             # random two-fault scripts
             twos = []
@@ -156,9 +186,10 @@ def replay(ctx):
     root = os.path.join(vlib.BUILD, "scratch", "c03-replay")
     shutil.rmtree(root, ignore_errors=True)
     sc = dict(obj["sc"], idx=0)
-    obs = flowgrid.run_fault(sc, root, helper)
+    obs = flowmore.run(sc, root, helper)
     n0 = len(ctx.violations)
     judge(ctx, helper, [obs])
+    flowmore.judge_attempts(ctx, helper, [obs])
     helper.close()
     shutil.rmtree(root, ignore_errors=True)
     for d, _ in ctx.violations[n0:]:
